@@ -61,3 +61,27 @@ Proof. exact grid_rows_are_the_indices. Qed.
 Print Assumptions C09_index_grid_is_the_coordinate_tensor.
 Example C09_ex_grid : ndindex_lowered [2; 2]%nat = Done {| shape := [2; 2; 2]%nat; data := [0; 0; 0; 1; 1; 0; 1; 1]%nat |}.
 Proof. reflexivity. Qed.
+
+(* ---- Array level: two Arrays alias exactly when they reach a common _CoreArray object ------------------------------------ *)
+(* an Array is a core object or a struct of named field Arrays (any nesting).  Whatever program runs, an Array none of whose
+   objects is the target of an in-place update is observably unchanged; Arrays that share no object do not interfere; a copy
+   reaches freshly allocated objects only, so it shares nothing with any Array that existed before *)
+From ND Require Import Machine.ArrayLayer.
+Theorem C09_array_frame : forall val opid sem lazy ort p h h' (b : aobj),
+  run val opid sem lazy ort h p = Some h' ->
+  (forall l, In l (reach b) -> (l < List.length h)%nat) ->
+  (forall d s, In (ISet val opid d s) p -> ~ In d (reach b)) ->
+  observe val opid h' b = observe val opid h b.
+Proof. exact array_frame. Qed.
+Theorem C09_disjoint_arrays_do_not_interfere : forall val opid sem lazy ort p h h' (a b : aobj),
+  run val opid sem lazy ort h p = Some h' ->
+  (forall l, In l (reach b) -> (l < List.length h)%nat) ->
+  (forall d s, In (ISet val opid d s) p -> In d (reach a)) ->
+  (forall l, In l (reach a) -> ~ In l (reach b)) ->
+  observe val opid h' b = observe val opid h b.
+Proof. exact disjoint_arrays_do_not_interfere. Qed.
+Theorem C09_copy_shares_nothing : forall val opid (a : aobj) h h' a' (b : aobj), acopy val opid h a = Some (h', a') ->
+  (forall l, In l (reach b) -> (l < List.length h)%nat) -> forall l, In l (reach a') -> ~ In l (reach b).
+Proof. exact copy_shares_nothing. Qed.
+Print Assumptions C09_array_frame.
+Print Assumptions C09_copy_shares_nothing.
